@@ -11,3 +11,5 @@ import Hls.Props.C04
 #print axioms Hls.C04.master_fixed_point
 #print axioms Hls.C04.master_roundtrip_wf
 #print axioms Hls.C04.master_fixed_point_wf
+#print axioms Hls.C04.master_roundtrip_parsed
+#print axioms Hls.C04.master_fixed_point_parsed
